@@ -2,55 +2,58 @@ import UrcuVerif.CallRcu.Model
 /-!
 # C03 — inductive invariants of the call_rcu model (helper lemmas; statements in `Props/C03.lean`)
 
-`InvA`: placement of callbacks.  The ghost map `loc` agrees with the concrete queues, batches and
-running slots in both directions, queues and batches are duplicate free, every registered callback
-is somewhere, in-flight `call_rcu()`s own their callback, `invN` counts invocations, `fin` = done.
-One lemma per label (generated text, identical proof script).
+`InvA`: placement of callbacks and well-formedness.  The ghost map `loc` agrees with the concrete
+queues, batches and running slots in both directions (`q_loc b_loc c_loc` / `loc_ok`), queues and
+batches are duplicate free, every registered callback is somewhere, a thread inside `call_rcu()`
+owns its callback (`tpc_ok`), `invN` counts invocations, `fin` = done, helper ids `≥ nextH` are
+unused.  One lemma per label (generated text, identical proof script).
 -/
 set_option linter.unusedVariables false
 set_option linter.unusedSimpArgs false
 namespace UrcuVerif.CallRcu
 
-/-- the callback a thread inside `call_rcu()` is about to enqueue -/
 def GK.id? : GK → Option Nat
   | .call id => some id
   | _ => none
 
+/-- the callback a thread inside `call_rcu()` is about to enqueue -/
 def TPc.pendId : TPc → Option Nat
   | .sel id => some id
   | .gdLd k | .gdLock k | .gdCreate k | .gdUnlock k => k.id?
   | .enq id _ _ => some id
   | _ => none
 
+/-- what the program counter `p` of thread `t` promises -/
+def TOk (s : State) (t : Nat) (p : TPc) : Prop :=
+  (∀ id, p = .sel id → s.loc id = .pend t) ∧
+  (∀ k id, p = .gdLd k ∨ p = .gdLock k ∨ p = .gdCreate k ∨ p = .gdUnlock k → k.id? = some id → s.loc id = .pend t) ∧
+  (∀ id h k, p = .enq id h k → s.loc id = .pend t ∧ h < s.nextH) ∧
+  (∀ cpu h, p = .opLock (.setCpu cpu (some h)) ∨ p = .opDo (.setCpu cpu (some h)) → h < s.nextH)
+
+/-- what the ghost location of callback `id` promises -/
+def LocOk (s : State) (id : Nat) (l : Loc) : Prop :=
+  (l = .none → s.reg id = false) ∧ (l ≠ .none → s.reg id = true) ∧
+  (l = .done → s.fin id = true) ∧ (l ≠ .done → s.fin id = false) ∧
+  (∀ t, l = .pend t → (s.tpc t).pendId = some id) ∧
+  (∀ h, l = .queue h → id ∈ s.queue h) ∧ (∀ h, l = .batch h → id ∈ s.batch h) ∧
+  (∀ h, l = .run h → s.cur h = some id)
+
 structure InvA (c : Cfg) (s : State) : Prop where
   q_loc : ∀ h id, id ∈ s.queue h → s.loc id = .queue h
   b_loc : ∀ h id, id ∈ s.batch h → s.loc id = .batch h
   c_loc : ∀ h id, s.cur h = some id → s.loc id = .run h
-  loc_q : ∀ h id, s.loc id = .queue h → id ∈ s.queue h
-  loc_b : ∀ h id, s.loc id = .batch h → id ∈ s.batch h
-  loc_c : ∀ h id, s.loc id = .run h → s.cur h = some id
+  loc_ok : ∀ id, LocOk s id (s.loc id)
+  tpc_ok : ∀ t, TOk s t (s.tpc t)
   q_nodup : ∀ h, (s.queue h).Nodup
   b_nodup : ∀ h, (s.batch h).Nodup
-  reg_loc : ∀ id, s.reg id = true ↔ s.loc id ≠ .none
-  sel_pend : ∀ t id, s.tpc t = .sel id → s.loc id = .pend t
-  gd1_pend : ∀ t k id, s.tpc t = .gdLd k → k.id? = some id → s.loc id = .pend t
-  gd2_pend : ∀ t k id, s.tpc t = .gdLock k → k.id? = some id → s.loc id = .pend t
-  gd3_pend : ∀ t k id, s.tpc t = .gdCreate k → k.id? = some id → s.loc id = .pend t
-  gd4_pend : ∀ t k id, s.tpc t = .gdUnlock k → k.id? = some id → s.loc id = .pend t
-  enq_pend : ∀ t id h k, s.tpc t = .enq id h k → s.loc id = .pend t
-  pend_tpc : ∀ t id, s.loc id = .pend t → (s.tpc t).pendId = some id
   inv_cnt : ∀ id, s.invN id = if (s.loc id).invoked then 1 else 0
-  fin_loc : ∀ id, s.fin id = true ↔ s.loc id = .done
   cur_run : ∀ h, (s.cur h).isSome = true ↔ s.hpc h = .run
   batch_pc : ∀ h, s.batch h ≠ [] → s.hpc h = .gp ∨ s.hpc h = .inv ∨ s.hpc h = .run
   fresh : ∀ h, s.nextH ≤ h → s.hpc h = .none ∧ s.queue h = [] ∧ s.batch h = [] ∧ s.cur h = none
-  enq_lt : ∀ t id h k, s.tpc t = .enq id h k → h < s.nextH
   thr_lt : ∀ t h, s.thr t = some h → h < s.nextH
   cpu_lt : ∀ cpu h, s.percpu cpu = some h → h < s.nextH
   dflt_lt : ∀ h, s.dflt = some h → h < s.nextH
   list_lt : ∀ h, h ∈ s.list → h < s.nextH
-  oplock_lt : ∀ t cpu h, s.tpc t = .opLock (.setCpu cpu (some h)) → h < s.nextH
-  opdo_lt : ∀ t cpu h, s.tpc t = .opDo (.setCpu cpu (some h)) → h < s.nextH
 
 theorem mem_of_head? {l : List Nat} {a : Nat} (h : l.head? = some a) : a ∈ l := by
   cases l <;> simp_all
@@ -65,17 +68,17 @@ theorem mem_tail_or_head {l : List Nat} {a x : Nat} (h : l.head? = some a) (hx :
   cases l <;> simp_all
 
 theorem invA_init (c) : InvA c init := by
-  constructor <;> simp [init, TPc.pendId, Loc.invoked, GK.id?]
+  constructor <;> simp [init, TPc.pendId, Loc.invoked, GK.id?, TOk, LocOk]
 
 set_option hygiene false in
 macro "a_tac" : tactic => `(tactic| (
-  obtain ⟨h1, h2, h3, h4, h5, h6, h7, h8, h9, h10a, h10b, h10c, h10d, h10e, h10f, h11, h12, h13, h14, h15, h16, h17, h18, h19, h20, h21, h22, h23⟩ := h
+  obtain ⟨h1, h2, h3, h4, h5, h6, h7, h8, h9, h10, h11, h12, h13, h14, h15⟩ := h
   simp only [step] at st
   (repeat' split at st)
   all_goals (first | (simp at st; done) | skip)
   all_goals (simp only [Option.some.injEq] at st; subst st)
   all_goals (constructor <;> first | assumption | (simp only [upd, lockS, unlockS, newHelper, relocate, K.cont, SetObl, OpObl] at * <;>
-    grind [TPc.pendId, GK.id?, Loc.invoked, → mem_of_head?, → mem_of_mem_tail', nodup_tail', head?_notin_tail, → ne_nil_of_head?, mem_tail_or_head]))))
+    grind [upd, relocate, TOk, LocOk, TPc.pendId, GK.id?, Loc.invoked, → mem_of_head?, → mem_of_mem_tail', nodup_tail', head?_notin_tail, → ne_nil_of_head?, mem_tail_or_head]))))
 
 theorem inva_rlock (c : Cfg) {s s' : State} (h : InvA c s) (t : _)
     (st : step c s (.rlock t) = some s') : InvA c s' := by
